@@ -327,10 +327,13 @@ C08_CLAUSES = {1: "a failed call changed an allowance", 2: "an admin's Execute o
                5: "spending not deducted exactly per denomination (or beyond what remains)", 6: "spending changed the expiry",
                7: "IncreaseAllowance changed another subkey's allowance", 8: "IncreaseAllowance: wrong resulting amounts",
                9: "DecreaseAllowance changed another subkey's allowance", 10: "DecreaseAllowance: wrong resulting amounts (must saturate at zero)",
-               11: "a call that may not touch allowances changed one"}
+               11: "a call that may not touch allowances changed one",
+               12: "IncreaseAllowance left an expiry other than the requested one / that of the unexpired previous grant",
+               13: "DecreaseAllowance left an expiry other than the requested one / the previous one"}
 C16_CLAUSES = {1: "CanExecute answered differently from the Execute made right after it"}
 C17_CLAUSES = {1: "admin list or frozen flag changed other than by UpdateAdmins/Freeze of a current admin while mutable",
-               2: "an allowance or permission entry changed without an admin's grant call naming it (or the subkey's own spending)"}
+               2: "an allowance or permission entry changed without an admin's grant call naming it (or the subkey's own spending)",
+               3: "an accepted UpdateAdmins did not install exactly the submitted list (a removed admin stays admin) / an accepted Freeze did not freeze"}
 
 
 def mk_cw1_run(eval_index, clauses, proj):
@@ -462,6 +465,7 @@ C03_CLAUSES = {1: "status Passed although the recorded ballots do not pass the r
                3: "status Open although the proposal has expired", 4: "status Rejected although the ballots pass the rule",
                5: "status Rejected although not expired and the proposal can still pass", 6: "status Pending",
                7: "the threshold rule aborts on an in-range tally",
+               9: "the single-proposal query or the reverse listing reports a proposal differently from ListProposals",
                200: "ballots outweigh the proposal's total (the rule itself is undefined)"}
 C05_CLAUSES = {1: "messages dispatched for a proposal that was not Passed", 2: "a proposal dispatched twice in one transaction",
                3: "dispatched messages differ from refund + the proposed messages", 4: "Execute by an unauthorised caller",
@@ -469,11 +473,13 @@ C05_CLAUSES = {1: "messages dispatched for a proposal that was not Passed", 2: "
                8: "Propose/Vote emitted proposal messages or refunds", 9: "a failed handler call emitted messages",
                10: "a failed transaction changed proposals", 11: "proposal ids are not 1,2,3,...", 12: "a proposal disappeared",
                13: "content/threshold/total/expiry/proposer/deposit of an existing proposal changed", 14: "a proposal's status moved backwards",
-               15: "a new proposal expires later than the maximum voting period"}
+               15: "a new proposal expires later than the maximum voting period",
+               16: "the single-proposal query or the reverse listing reports a proposal differently from ListProposals"}
 C06_CLAUSES = {1: "ballots of a proposal changed other than by one new ballot of the voting address", 2: "ballot cast after expiry",
                3: "ballot cast on an executed proposal", 4: "ballot weight differs from the voter's weight in the proposal's snapshot",
                5: "zero-weight address voted", 6: "a new proposal does not hold exactly the proposer's Yes ballot",
                7: "proposer's ballot weight differs from the snapshot weight", 8: "proposal total differs from the sum of the snapshot weights",
+               9: "ballot weight differs from the voter's weight when the proposal's block began (harness-recorded member list)",
                201: "proposer weight taken after a same-block group change", 202: "total taken after a same-block group change",
                203: "ballots outweigh the total"}
 C15_CLAUSES = {1: "an executed proposal's deposit was not returned exactly once to the proposer", 2: "Close: refund missing or not promised",
